@@ -5,32 +5,36 @@
    (the correspondence instantiates them with the table of the floats numpy returned).
    Follows the tree with the fix commits of branch fix-paths:
      Barrier.process resets barrier_event, Underlying.update switches back from LOG,
-     Asian.value takes the spot at every averaging date. *)
+     Asian.value takes the spot at every averaging date, Product.underlying_value hands exp(path) to
+     payoff.process in the LOG representation. *)
 From Coq Require Import ZArith QArith Qminmax Qabs Bool List.
 From RV Require Import Base.QB Gen.GenC17Payoff.
 Import ListNotations.
 Open Scope Q_scope.
 
-(* value of an underlying: a number, or np.inf (DefaultTime without default) *)
-Inductive uval := UFin (q : Q) | UInf.
+(* value of an underlying: a number, np.inf (DefaultTime without default), or UErr where Python raises /
+   returns nan (average over a grid ending at time 0, n-th default with n above the number of names) *)
+Inductive uval := UFin (q : Q) | UInf | UErr.
 
+(* order of default times; UErr never occurs among them and is placed with np.inf *)
 Definition uval_leb (x y : uval) : bool :=
   match x, y with
-  | _, UInf => true
-  | UInf, UFin _ => false
   | UFin a, UFin b => Qle_bool a b
+  | _, UFin _ => false
+  | _, _ => true
   end.
 
 Definition uval_le (x y : uval) : Prop :=
   match x, y with
-  | _, UInf => True
-  | UInf, UFin _ => False
   | UFin a, UFin b => a <= b
+  | _, UFin _ => False
+  | _, _ => True
   end.
 
 Definition uval_eqb (x y : uval) : bool :=
   match x, y with
   | UInf, UInf => true
+  | UErr, UErr => true
   | UFin a, UFin b => Qeq_bool a b
   | _, _ => false
   end.
@@ -68,9 +72,9 @@ Definition uval_sort (l : list uval) : list uval := fold_right uval_insert [] l.
 Definition default_times_log (levels : list Q) (times : list Q) (jumps : list (list Q)) : list uval :=
   map (fun ar => default_time_log (fst ar) times (snd ar)) (combine levels jumps).
 
-(* NthDefaultTimes._value_log with self._k = k (index - 1) *)
+(* NthDefaultTimes._value_log with self._k = k (index - 1); np.argpartition raises for k >= number of names *)
 Definition nth_default_log (k : nat) (levels : list Q) (times : list Q) (jumps : list (list Q)) : uval :=
-  nth k (uval_sort (default_times_log levels times jumps)) UInf.
+  nth k (uval_sort (default_times_log levels times jumps)) UErr.
 
 (* Barrier.__barrier_event_down / _up (repaired): flag := False, then True at the first crossing *)
 Definition crosses (down : bool) (barrier : Q) (path : list Q) : bool :=
@@ -94,6 +98,12 @@ Section Representation.
     end.
   Definition asian_value (uses_log : bool) (times path : list Q) : Q :=
     let lr := asian_acc uses_log (combine times path) 0 0 in snd lr / fst lr.
+  (* res / last_t with last_t = 0 is nan (ZeroDivisionError for an empty grid) *)
+  Definition asian_uval (uses_log : bool) (times path : list Q) : uval :=
+    if Qeq_bool (fst (asian_acc uses_log (combine times path) 0 0)) 0 then UErr else UFin (asian_value uses_log times path).
+
+  (* LogSpot.value = np.log(path[..., -1]) / LogSpot._value_log = path[..., -1] *)
+  Definition logspot_value (uses_log : bool) (path : list Q) : Q := if uses_log then lastq path else logf (lastq path).
 
   (* DefaultTime.value = _value_log after np.log(jump_path); after update(LOG) value = _value_log *)
   Definition default_time (uses_log : bool) (a : Q) (times jumps : list Q) : uval :=
@@ -111,7 +121,7 @@ Section Representation.
   | PDigital (is_call : bool) (k : Q)
   | PBarrier (cp k : Q) (knock_in down : bool) (barrier : Q).
 
-  Inductive underlying := USpot | UAsian | UDefaultTime (a : Q).
+  Inductive underlying := USpot | UAsian | UDefaultTime (a : Q) | ULogSpot.    (* Libors.value is Spot.value *)
 
   Record product := { p_und : underlying; p_pay : payoff; p_notional : Q }.
 
@@ -141,8 +151,9 @@ Section Representation.
   Definition und_value (u : underlying) (lg : bool) (times path jumps : list Q) : uval :=
     match u with
     | USpot => UFin (spot_value lg path)
-    | UAsian => UFin (asian_value lg times path)
+    | UAsian => asian_uval lg times path
     | UDefaultTime a => default_time lg a times jumps
+    | ULogSpot => UFin (logspot_value lg path)
     end.
 
   Inductive op :=
@@ -156,7 +167,8 @@ Section Representation.
     match o with
     | OpUpdate lg => ({| barrier_event := barrier_event s; uses_log := lg |}, OutNone)
     | OpUnderlying t p j =>
-        ({| barrier_event := payoff_process (p_pay pr) p (barrier_event s); uses_log := uses_log s |},
+        (* payoff.process(times, spot_path): exp(path) in the LOG representation (Product remembers the representation) *)
+        ({| barrier_event := payoff_process (p_pay pr) (if uses_log s then map expf p else p) (barrier_event s); uses_log := uses_log s |},
          OutU (und_value (p_und pr) (uses_log s) t p j))
     | OpCall u => (s, OutV (product_call (p_notional pr) (payoff_eval (p_pay pr) (barrier_event s)) u))
     end.
@@ -189,6 +201,7 @@ Definition out_eqb (tol : Q) (a b : out) : bool :=
   match a, b with
   | OutNone, OutNone => true
   | OutU UInf, OutU UInf => true
+  | OutU UErr, OutU UErr => true
   | OutU (UFin x), OutU (UFin y) => Qle_bool (Qabs (x - y)) (tol * (1 + Qabs y))
   | OutV x, OutV y => Qle_bool (Qabs (x - y)) (tol * (1 + Qabs y))
   | _, _ => false
